@@ -128,6 +128,12 @@ def check_dispatch(run, A):
     g = A.graphs.get(fn)
     st = [e for e in g.events if e.kind == 'store']
     okc = any(const_val(e.term.args[2]) == 1 and any(is_call_to(x, 'builtin.int') for x in walk_terms(e.term.args[1])) for e in st)
+    if not okc:
+        # the same unit vector as a row of the identity: np.eye(D)[int(name[2:])]
+        for r_ in [g.ret] + [e.term for e in g.events if e.term is not None]:
+            for x in walk_terms(r_, into_mu=False):
+                if x.op == 'sub' and is_call_to(strip_views(x.args[0]), 'numpy.eye', 'numpy.identity') and any(is_call_to(y, 'builtin.int') for y in walk_terms(x.args[1])):
+                    okc = True
     run.check(okc, 'R-DISPATCH', "get_bf_vector('chN'): one-hot at index N", fn.loc(), '', 'the selected channel is not set to 1 at int(name[2:])', construct='R-DISPATCH::chN::one-hot')
     run.count('names x {plain, +ban} specialised', n)
 
